@@ -238,4 +238,54 @@ def rule_swap_loops(P):
     return R
 
 
-RULES = [rule_counter_width, rule_mirror_simplify, rule_swap_loops]
+TWIN_LOCALS = ("Blevel", "Brn", "Bu", "Cu", "kSize", "nextL")   # locals that are defined identically in both twins on today's tree
+
+
+def rule_image_fire(P):
+    """prepost_set_mtrel::_compute (one image step) and saturation_set_mtrel::recFire (the same step inside saturation) are
+    twins; and in both, the number of indices enumerated for the result node is the size of the level that node was created at"""
+    R = RuleResult("sibling.image-fire", "the image step and saturation's fire step define their shared locals identically per instantiation, and the index range written into the result node is the size of that node's own level")
+    def defs(f):
+        g = Graph(f)
+        d = {}
+        for n in g.nodes:
+            if n.kind == "ldef" and n.ev.get("rhs"):
+                d.setdefault(n.ev["var"], set()).add(re.sub(r"\s+", "", n.ev["rhs"]))
+        return d
+    images = {f["cls"].split("prepost_set_mtrel")[-1]: f for f in P.fns.values() if base_name(f["q"]) == M + "prepost_set_mtrel::_compute" and f.get("cfg")}
+    fires = {f["cls"].split("saturation_set_mtrel")[-1]: f for f in P.fns.values() if base_name(f["q"]) == M + "saturation_set_mtrel::recFire" and f.get("cfg")}
+    if len(images) < 4 or len(fires) < 4:
+        raise AnalysisBroken("sibling.image-fire: expected ≥4 instantiations of each twin, found %d / %d" % (len(images), len(fires)))
+    for f in list(images.values()) + list(fires.values()):
+        d = defs(f)
+        R.functions.add(f["inst"])
+        cu = [re.search(r"newWritable\(([^,]+),([^,]+),", x) for x in d.get("Cu", [])]
+        ks = [re.search(r"getLevelSize\(([^)]+)\)", x) for x in d.get("kSize", [])]
+        if not cu or not ks or not all(cu) or not all(ks):
+            raise AnalysisBroken("sibling.image-fire: Cu / kSize definitions not found in %s" % f["inst"])
+        iid = "%s: indices written into the result node range over the size of its own level" % f["inst"].replace(M, "")[:100]
+        R.paths += 1
+        lv_node = {m.group(2) for m in cu}
+        lv_size = {m.group(1) for m in ks}
+        if lv_node == lv_size and len(lv_node) == 1:
+            R.ok(iid, where(f))
+        else:
+            R.fail(iid, where(f), Finding(R.rule, f["file"], base_name(f["q"]), "kSize",
+                   "the result node is created at level %s but the source indices enumerated for it range over the size of level %s: with non-uniform variable sizes states are missed (or the node is overrun)" % (sorted(lv_node), sorted(lv_size)), f["line"], inst=f["inst"]))
+    for k in sorted(set(images) & set(fires)):
+        da, db = defs(images[k]), defs(fires[k])
+        for v in TWIN_LOCALS:
+            if v not in da or v not in db:
+                continue
+            iid = "%s: `%s` defined alike in the image step and in recFire" % (k, v)
+            R.paths += 1
+            if da[v] == db[v]:
+                R.ok(iid, where(images[k]))
+            else:
+                R.fail(iid, where(images[k]), Finding(R.rule, images[k]["file"], M + "prepost_set_mtrel::_compute", "twin:" + v,
+                       "local `%s` is %s in the image step but %s in saturation's fire step" % (v, sorted(da[v]), sorted(db[v])), images[k]["line"], inst=images[k]["inst"]))
+    R.require_floor(20, "twin obligations of the image and fire steps")
+    return R
+
+
+RULES = [rule_counter_width, rule_mirror_simplify, rule_swap_loops, rule_image_fire]
